@@ -738,10 +738,19 @@ def run(chk):
     for ev in events:
         EV.merge((origin, unwind), ev)
     seen_fail = {}
-    for fmt, kind, text, data in prefails:
+    for pf in prefails:
+        fmt, kind, text, data = pf[:4]
         sig = f"C09:{fmt}:{kind}"
         if sig in seen_fail:
             seen_fail[sig]["n"] += 1
+            continue
+        if len(pf) > 4:     # compared with the store the document was written from
+            seen_fail[sig] = {"n": 1, "what": text,
+                              "replay": {"kind": "base", "fmt": fmt, "expected": pf[4],
+                                         "data_hex": (data if isinstance(data, bytes) else data.encode()).hex(),
+                                         "how": "tools/c09.py replay(): c09_campaign.base_oracle - failsafe read of the "
+                                                "undamaged document against the canonical form of the objects it was "
+                                                "written from"}}
             continue
         seen_fail[sig] = {"n": 1, "what": text,
                           "replay": {"kind": "bytes", "fmt": fmt, "wellformed": True,
@@ -866,6 +875,13 @@ def replay(path):
         print("readers (failsafe, strict):", obs, "variant:", rp.get("style"))
         print("oracle:", fail)
         return 1 if fail else 0
+    if rp.get("kind") == "base":
+        import c09_campaign as C
+        data = bytes.fromhex(rp["data_hex"])
+        f = C.base_oracle(rp["fmt"], data if rp["fmt"] == "xml" else data.decode("utf-8", "surrogatepass"), rp["expected"],
+                          "replay")
+        print("oracle:", f)
+        return 1 if f else 0
     if rp.get("kind") == "bytes":
         data = bytes.fromhex(rp["data_hex"])
         f = bytes_oracle(rp["fmt"], data if rp["fmt"] == "xml" else data.decode("utf-8", "surrogatepass"), rp["wellformed"])
